@@ -1059,7 +1059,7 @@ def run_bulk(spec, rec):
                 big = True
             cls = POINT_CLASSES[(i * 3 + spec["shard"]) % len(POINT_CLASSES)]
             blat, blon, qlat, qlon = gen_points(rng, cls, n, nq)
-            self_query = (i % 6 == 1) and not many_q
+            self_query = (i % 6 == 1) and not many_q and not big
             if self_query:
                 qlat, qlon = list(blat), list(blon)
             fam = Family(blat, blon, qlat, qlon, cls)
